@@ -21,6 +21,6 @@ func init() {
 		if err := sflow.DecodeMessageVersion(bytes.NewBuffer(d), &p); err != nil {
 			return []string{resErr(err)}
 		}
-		return []string{"res ok", "sf " + canon.Dump(p)}
+		return append([]string{"res ok", "sf " + canon.Dump(p)}, rawFaithful(&p, "sflow")...)
 	}
 }
